@@ -40,6 +40,24 @@ func newC04(tier string) run.Job {
 		modes = []int{modeFloat, modeNumber}
 	}
 	j.ds = newDocSet(stdDocSpec(tier), modes)
+	// containers of 2..3 members that all hit / partly hit / miss the operand paths (the node
+	// bound above is too small for "every member has a")
+	for _, seq := range [][]int{{3, 3}, {3, 4}, {3, 7}, {7, 7}, {3, 2}, {2, 2}, {3, 3, 3}, {3, 7, 4}, {7, 3, 2}, {6, 6}, {3, 0}, {9, 11}} {
+		for _, object := range []bool{false, true} {
+			doc, _ := c09Doc(seq, object, c09Root{})
+			for _, root := range []interface{}{doc, doc["c"]} {
+				j.ds.text = append(j.ds.text, gen.JSON(root))
+				for _, m := range modes {
+					cp := gen.Clone(root)
+					if m == modeNumber {
+						cp = gen.ToNumber(root)
+					}
+					j.ds.docs[m] = append(j.ds.docs[m], cp)
+					j.ds.pristine[m] = append(j.ds.pristine[m], gen.Clone(cp))
+				}
+			}
+		}
+	}
 	// plus the ordinary ladders (any step kind may write)
 	j.ladder = unitsOf([]gen.Ladder{{Alpha: gen.SigmaFull(), Depth: 2, Funcs: gen.FuncSuffixes(), FuncDepth: 1}})
 	return j
@@ -55,7 +73,7 @@ func c04Paths(q *gen.Query) []*gen.Path {
 	f := gen.Filter(q)
 	return []*gen.Path{
 		gen.P('$', f), gen.P('$', a, f), gen.P('$', gen.Wild(), f), gen.P('$', gen.Rec(f)),
-		gen.P('$', f, a), gen.P('$', f, gen.Filter(gen.Exists(gen.P('@', a)))), gen.P('$', gen.Union(gen.Idx(0)), f),
+		gen.P('$', f, a), gen.P('$', f, gen.Filter(gen.Exists(gen.P('@', a)))), gen.P('$', gen.Union(gen.Idx(0)), f), gen.P('$', gen.Name("c"), f),
 	}
 }
 
@@ -82,6 +100,7 @@ func (j *c04Job) RunUnit(i int, c *run.Ctx) {
 		}
 		for _, m := range j.ds.modes {
 			for di := 0; di < j.ds.n(); di++ {
+				c.Tick()
 				for k, f := range []impl.Func{pr.F, pa.F} {
 					doc := j.ds.docs[m][di]
 					res := impl.Call(f, doc)
@@ -132,7 +151,7 @@ func init() {
 			"the clause about sharing one document between goroutines is explored by C06",
 		},
 		Bounds: map[string]string{
-			"quick":    "every atom (219), every A&&B / A||B over 24 atoms (1152) and 5 depth-3 shapes over 5 atoms (625) as a filter in 7 positions ($[?], $.a[?], $.*[?], $..[?], $[?].a, $[?][?(@.a)], $[0][?]); plus all paths of <=2 steps over the 50-step alphabet (functions after <=1 step); every document of <=4 nodes; plain and accessor mode",
+			"quick":    "every atom (219), every A&&B / A||B over 24 atoms (1152) and 5 depth-3 shapes over 5 atoms (625) as a filter in 8 positions ($[?], $.a[?], $.*[?], $..[?], $[?].a, $[?][?(@.a)], $[0][?], $.c[?]); plus all paths of <=2 steps over the 50-step alphabet (functions after <=1 step); every document of <=4 nodes plus 48 containers of 2..3 members that all / partly / never have the operand members; plain and accessor mode",
 			"thorough": "depth-3 shapes over 8 atoms (2560); every document of <=5 nodes in both decodings",
 		},
 		New: newC04,
